@@ -508,6 +508,10 @@ def engine_family(ctx, mode, checks, n_quick=400, n_thorough=16000, golden=True,
     cli_projection(ctx, res, checks, cli_n[0] if ctx.tier == "quick" else cli_n[1])
     return res
 
+@signature("same-file-through-symlinked-directory")
+def sig_same_file_two_names(sig, what, payload):
+    return bool(payload.get("same_file_under_two_names_through_a_symlinked_directory"))
+
 @signature("nested-elision-ambiguity")
 def sig_nested_elision(sig, what, payload):
     return bool(payload.get("missed_by_model"))
@@ -607,6 +611,13 @@ def very_large_patterns(ctx, checks):
         p2 = f"@@\nvar m expression\n@@\n-wide(m, {args}, m)\n+narrow(m)\n"
         cases.append({"id": f"wide{n}-same", "patches": [p2], "src": f"package a\n\nfunc f() {{\n\twide(x.y, {args}, x.y)\n}}\n"})
         cases.append({"id": f"wide{n}-other", "patches": [p2], "src": f"package a\n\nfunc f() {{\n\twide(x.y, {args}, x.z)\n}}\n"})
+    # a patch line far longer than any buffer a line reader starts with (a 70 KB literal on a context line; on a '-' line)
+    big = "x" * 70000
+    for tag, body in (("context", f"-oldInit()\n+newInit()\n loadTable(\"{big}\")\n"), ("minus", f"-oldInit()\n-loadTable(\"{big}\")\n+newInit()\n"),
+                      ("plus", f"-oldInit()\n+newInit()\n+loadTable(\"{big}\")\n")):
+        src = f"package a\n\nfunc inst() {{\n\toldInit()\n\tloadTable(\"{big}\")\n}}\n\nfunc near() {{\n\toldInit()\n\tother()\n}}\n"
+        cases.append({"id": f"longline-{tag}", "patches": ["@@\n@@\n" + body], "src": src})
+        cases.append({"id": f"longline-{tag}-then-more", "patches": ["@@\n@@\n" + body + "\n@@\n@@\n-other()\n+another()\n"], "src": src})
     res = run_engine_batch(ctx, ["-inputs", write_jsonl(ctx, cases)], "large")
     ctx.count("very_large_pattern_cases", len(res))
     engine_projection(ctx, res, checks)
@@ -747,6 +758,7 @@ def c05(ctx):
     # code that only resembles an instance (a repeated metavariable over code that differs, an identifier metavariable over
     # a selector) is outside every rewritten fragment
     kinds_and_names_family(ctx, {"outside", "decisions", "where"})
+    very_large_patterns(ctx, {"outside", "decisions", "where"})
     ctx.rule = rule + " Plus a directed table of near-instances (both kinds of metavariable in one change, repeated metavariables over code that contains their own name)."
 
 # ---------------------------------------------------------------------------
@@ -773,6 +785,10 @@ GENERATED_HEADERS = [
     ("at-block-tight", "/*@generated by x*/\n", True),
     ("at-block-end", "/* Package doc. @generated*/\n", True),
     ("at-punct", "// Package doc.\n// This file is @generated.\n", True),
+    # the tag on a line of the package comment that has the form of a directive (CommentGroup.Text leaves such lines out)
+    ("at-directive-line", "// Package doc.\n//nolint:all // @generated by stubgen\n", True),
+    ("at-only-directive-line", "//lint:file-ignore U1000 @generated\n", True),
+    ("at-go-directive-line", "// Package doc.\n//go:generate stubgen -tag @generated\n", True),
     ("at-inside-word", "// Package doc x@generatedy.\n", True),
     ("at-tight-line", "//@generated\n", True),
     ("plain", "", False),
@@ -1185,6 +1201,39 @@ def c06(ctx):
     decisions.update(model_decisions(ctx, scen))
     library_reuse_family(ctx, "C06: a source no change applies to comes back as it is, with no error, whatever was applied before")
     run_scenarios(ctx, scen, [[], ["print"], ["diff"], ["print", "si"], ["sg"]], {"unmatched", "stdout", "exit"}, post)
+    # an unmatched file named more than once (relatively, absolutely, through its directory): still one file - echoed once by
+    # --print-only, logged once, untouched
+    um_src = "package a\n\nfunc onlyHere() { zzzUnmatched(41) }\n"
+    for k, mkargs in enumerate((lambda r: [".", os.path.join(r, "u.go")], lambda r: ["u.go", os.path.join(r, "u.go"), "./u.go"],
+                                lambda r: [os.path.join(r, "sub"), "sub/v.go", "."], lambda r: [r, "./..."], lambda r: ["sub/../u.go", "u.go"])):
+        for mode in (["--print-only"], ["--print-only", "-v"], ["--diff"], []):
+            root = ctx.scratch("c06dup")
+            cl.write_tree(root, {"u.go": um_src, "sub/v.go": um_src.replace("41", "42"), "m.go": "package a\n\nfunc m() { foo(1) }\n",
+                                 "p.patch": "# d\n@@\nvar x expression\n@@\n-foo(x)\n+bar(x)\n"})
+            before = cl.digest(root)
+            args = mkargs(root)
+            code, out, err = cl.gopatch(ctx.gopatch, root, ["-p", "p.patch"] + mode + args)
+            so = out.decode("utf-8", "replace")
+            ctx.evaluations += 1
+            ctx.count("unmatched_file_named_several_times")
+            ctx.nontrivial.add(f"c06dup{k}" + " ".join(mode))
+            probs = []
+            if "--print-only" in mode and "--diff" not in mode:
+                for txt in ("zzzUnmatched(41)", "zzzUnmatched(42)"):
+                    if so.count(txt) > 1:
+                        probs.append(f"the file with {txt} is echoed {so.count(txt)} times")
+            if "-v" in mode and len(re.findall(r"(?m)u\.go: skipped$", so)) > 1:
+                probs.append("u.go is logged as skipped more than once")
+            after = cl.digest(root)
+            if any(before[r_] != after.get(r_) for r_ in ("u.go", "sub/v.go")):
+                probs.append("an unmatched file was touched")
+            if code != 0:
+                probs.append(f"exit {code}")
+            shutil.rmtree(root, ignore_errors=True)
+            if probs:
+                ctx.violation("a file no change applies to, named several times on the command line: " + "; ".join(probs),
+                              {"input": {"arguments": [a.replace(root, "$ROOT") for a in args], "flags": mode,
+                                         "files": {"u.go": um_src, "sub/v.go": "the same with 42", "m.go": "a file the patch applies to"}}})
     triples = []
     for sc in scen:
         for rel, src in sc.files.items():
@@ -1264,6 +1313,16 @@ def c12(ctx):
     trip = cli_print_triples(ctx, imp)
     ctx.count("import_edit_api_vs_cli", len(trip))
     api_vs_cli(ctx, trip, "C12 (import edits)")
+    # files whose line numbers are not what their bytes say (//line directives of generated parsers), with rewrites that span
+    # several lines: the library and the command line have their own copies of the line surgery
+    ldir = [{"id": f"line{k}", "patches": [pt], "src": sr} for k, (pt, sr) in enumerate([
+        ("@@\n@@\n-foo(...)\n+bar(1)\n", "package a\n\n//line gram.y:2\nfunc f() {\n\tfoo(1,\n\t\t2,\n\t\t3)\n\tkeep()\n}\n"),
+        ("@@\n@@\n-foo(...)\n+bar(1)\n", "package a\n\nfunc f() {\n//line gram.y:900\n\tfoo(1,\n\t\t2,\n\t\t3)\n\tkeep() // eol\n}\n\n// doc g\nfunc g() {}\n"),
+        ("@@\nvar x expression\n@@\n-wrap(x)\n+x\n", "//line other.go:1\npackage a\n\nfunc f() {\n\tuse(wrap(\n\t\tone(),\n\t), wrap(two()))\n/*line big.go:50:3*/ keep()\n}\n"),
+        ("@@\n@@\n-foo(...)\n+bar(1)\n", "package a\n\nfunc f() {\n\tfoo(1,\n\t\t2,\n\t\t3)\n\tkeep()\n}\n")])]
+    trip = cli_print_triples(ctx, ldir)
+    ctx.count("line_directive_api_vs_cli", len(trip))
+    api_vs_cli(ctx, trip, "C12 (files with //line directives)")
 
 def c12_descriptions(ctx):
     """descriptions only for files to which a described change applied: the description of every change comes from the
@@ -1715,6 +1774,12 @@ def c07(ctx):
             scen.append(Scenario(f"misfit{k}-among-large-{n}", [patch],
                                  {"a_large.go": big("alpha", n + rng.randint(0, 9)), "m.go": src, "z_large.go": big("zulu", n + rng.randint(0, 9))},
                                  "misfit among files with large results"))
+    # a valid rewrite that makes a line longer than any buffer a line reader starts with (the original has no such line)
+    for k, n_ in enumerate((40000, 600000) if ctx.tier == "quick" else (40000, 70000, 600000, 1100000)):
+        lit = "y" * n_
+        scen.append(Scenario(f"huge-line-{n_}", ["@@\nvar x expression\n@@\n-join(x)\n+concat(x, x)\n"],
+                             {"m.go": f"package a\n\nfunc f() string {{\n\treturn join(\"{lit}\")\n}}\n\nfunc after() {{ keep() }}\n",
+                              "other.go": "package a\n\nfunc g() { foo(7) }\n"}, "a rewrite that creates a very long line"))
     scen += corpus_scenarios("C07")
     optsets = [[], ["si"], ["print"], ["print", "si"], ["diff"], ["diff", "si"], ["diff", "v"], ["print", "v", "si"], ["v"], ["diff", "print", "v"]]
     run_scenarios(ctx, scen, optsets, {"write", "stdout", "exit"}, post)
@@ -2250,6 +2315,8 @@ FAILSTEP_ORDERS = [("bad", "good1"), ("good1", "bad"), ("good1", "bad", "good2")
 @prop("C16")
 def c16(ctx):
     ctx.level = "proof"
+    # a patch source that cannot be loaded is a failure of the run: reported, non-zero exit, nothing rewritten (loader model)
+    loader_tie(ctx, n_quick=40, n_thorough=800)
     ctx.rule = CLI_RULE + (" For this property failures are enumerated: a file that does not parse / whose rewrite fails / whose result "
                            "is not valid Go, at the first, middle and last position of a 3..5 file run; a missing path argument; a missing "
                            "patch file; a patches-file naming a missing patch; an unreadable target (run as uid 65534); a target whose temporary "
@@ -2607,9 +2674,34 @@ def all_paths(t, prefix=""):
             out += all_paths(v, p + "/")
     return out
 
+def c15_through_a_linked_directory(ctx):
+    """A symbolic link to a directory is never walked, but a path *through* it names real entries: the same file can be
+    reached under two names.  Each file is to be processed once (F30 when it is not)."""
+    patch = "@@\nvar x expression\n@@\n-foo(x)\n+foo(wrap(x))\n"
+    srcs = {"real/sub/x.go": "package a\n\nfunc f() { foo(1) }\n", "real/y.go": "package a\n\nfunc g() { foo(2) }\n"}
+    once = {rel: s_.replace("foo(1)", "foo(wrap(1))").replace("foo(2)", "foo(wrap(2))") for rel, s_ in srcs.items()}
+    for args, mixed in ((["real/...", "link/sub"], True), (["link/sub/x.go", "real/sub/x.go"], True), (["real/sub/x.go", "link/sub/../sub/x.go", "link/y.go"], True),
+                        (["link/sub", "link/sub/x.go"], False), (["link", "real/y.go"], False), (["link/...", "real"], False)):
+        root = ctx.scratch("c15link")
+        cl.write_tree(root, dict(srcs, **{"p.patch": patch}))
+        os.symlink("real", os.path.join(root, "link"))
+        code, out, err = cl.gopatch(ctx.gopatch, root, ["-p", "p.patch"] + args)
+        got = {rel: open(os.path.join(root, rel)).read() for rel in srcs}
+        shutil.rmtree(root, ignore_errors=True)
+        ctx.evaluations += 1
+        ctx.count("files_reached_through_a_linked_directory")
+        ctx.nontrivial.add("c15link:" + " ".join(args))
+        twice = [rel for rel in srcs if got[rel] not in (srcs[rel], once[rel])]
+        if twice or code != 0:
+            ctx.violation(f"gopatch {' '.join(args)} (link -> real): {', '.join(twice) or 'no file'} processed more than once (exit {code}): a file "
+                          "reached under two names through a directory that is a symbolic link is taken for two files",
+                          {"input": {"arguments": args, "tree": "real/sub/x.go, real/y.go, link -> real", "patch": patch},
+                           "same_file_under_two_names_through_a_symlinked_directory": mixed, "result": got})
+
 @prop("C15")
 def c15(ctx):
     facts_tie(ctx)
+    c15_through_a_linked_directory(ctx)
     ctx.rule = ("directory trees (nesting up to 4; directory names incl. vendor, testdata, .git, _tmp, a.go, vendors; files incl. "
                 ".hidden.go, _under.go, non-.go names, symlinks to files and directories, dangling links, fifos) are created on disk; "
                 "argument lists mix '.', './...', sub-directories with and without '...', absolute paths, '../<cwd>/x', 'd/..', 'd/../...', explicit "
